@@ -191,3 +191,9 @@ pub(crate) fn is_target_log_more_recent(
 #[cfg(kani)]
 #[path = "/verif/kani/core_harness.rs"]
 mod verif_kani;
+
+// Verification hook (add-only, inert unless built with `--cfg d_engine_verif`): replay tests that
+// reproduce recorded findings against the real code live outside the repository, under /verif/replay.
+#[cfg(all(test, d_engine_verif))]
+#[path = "/verif/replay/core_replays.rs"]
+mod verif_replays;
